@@ -4,7 +4,7 @@ for binary classification tasks.
 
 from typing import Callable
 
-from numpy import add, array, searchsorted, sqrt, unique, zeros
+from numpy import add, argsort, array, sqrt, unique, zeros
 from pandas import DataFrame, Series, crosstab
 from scipy.stats import chi2_contingency
 
@@ -181,15 +181,19 @@ class BinaryCarver(BaseCarver):
         # all indices that may be duplicated
         index_values = array([groupby.get(index_value, index_value) for index_value in xtab.index])
 
-        # all unique indices deduplicated
-        unique_indices = unique(index_values)
+        # all unique indices deduplicated, kept in the order of the crosstab (order of the feature)
+        unique_indices, first_positions = unique(index_values, return_index=True)
+        unique_indices = unique_indices[argsort(first_positions)]
+        positions = {index_value: position for position, index_value in enumerate(unique_indices)}
 
         # initiating summed up array with zeros
         summed_values = zeros((len(unique_indices), len(xtab.columns)))
 
         # for each unique_index found in index_values sums xtab.Values at corresponding position
         # in summed_values
-        add.at(summed_values, searchsorted(unique_indices, index_values), xtab.values)
+        add.at(
+            summed_values, [positions[index_value] for index_value in index_values], xtab.values
+        )
 
         # converting back to dataframe
         return DataFrame(summed_values, index=unique_indices, columns=xtab.columns)
